@@ -474,6 +474,53 @@ def r8_coefficient_wiring(ctx):
            "boundary coefficient halves are wired %s" % sorted(wired), h)
 
 
+def r9_boundary_group_key(ctx):
+    """boundary constraints that share a divisor are merged into one group, and the divisor is built
+    from the first assertion of the group only: the grouping key must determine (stride, first_step)
+    injectively.  Structural form: the key is the pair of the two accessor results themselves."""
+    p = ctx.p
+    f = p.fn("winter_air::air::boundary::group_constraints")
+    L = for_loops(f)
+    if not L:
+        raise AnchorLost("group_constraints: assertion loop not found")
+    ok, how = False, "no pair (assertion.stride(), assertion.first_step()) is used as the grouping key"
+    for bi, b in enumerate(f.blocks):
+        if b.get("cleanup"):
+            continue
+        for s in b["s"]:
+            if s["k"] != "assign" or s["rv"][0] != "agg" or s["rv"][1].get("k") != "tuple" or len(s["rv"][2]) != 2:
+                continue
+            names = []
+            for o in s["rv"][2]:
+                nm = None
+                l = op_local(o)
+                if l is not None:
+                    for x in f.copy_chain(l):
+                        for d in f.defs(x):
+                            if d["kind"] == "call":
+                                nm = (callee_of(d["term"]) or {}).get("name")
+                names.append(nm)
+            if sorted(n or "" for n in names) != ["first_step", "stride"]:
+                continue
+            used = f.forward_locals([s["p"][0]], through_calls=None)
+            consumers = [t for b2, t in f.calls() if any(op_local(a) in used for a in t["a"])]
+            caps = [s2 for b2 in f.blocks for s2 in b2["s"] if s2["k"] == "assign" and s2["rv"][0] == "agg" and s2["rv"][1].get("k") == "closure"
+                    and any(op_local(o) in used for o in s2["rv"][2])]
+            if consumers or caps:
+                ok, how = True, "groups are looked up by the pair (stride(), first_step()) of the assertion (an injective key)"
+    if not ok:
+        # report what the key is made of, if a lookup exists
+        arith = [s for b in f.blocks if not b.get("cleanup") for s in b["s"] if s["k"] == "assign" and s["rv"][0] == "bin" and
+                 s["rv"][1].startswith(("Add", "Mul", "BitOr", "BitXor", "Shl"))]
+        for s in arith:
+            sl = f.slice_of_operand(["cp", [s["p"][0]]], at=(s["_pos"][0], f.INF))
+            nm = {(callee_of(f.term(b)) or {}).get("name") for b in sl["calls"]}
+            if {"stride", "first_step"} <= nm:
+                how = "stride() and first_step() are combined arithmetically (%s at %s) into the grouping key: different divisors can share a key" % (
+                    s["rv"][1], ir.line_of(s["sp"]["at"]))
+    ctx.ob("R9", "boundary-groups-keyed-by-(stride,first_step)", ok, "group_constraints: " + how, f)
+
+
 def run(ctx):
     ctx.rule("R1", "acceptable_options.validate(&proof)? is propagated and dominates every protocol step of verify()", 2)
     ctx.rule("R2", "coin seed = proof.context.to_elements() ++ pub_inputs.to_elements(); AIR built from proof.trace_info/options and the same pub_inputs; each arm passes (air, channel(air, proof)?, coin) on", 7)
@@ -483,6 +530,8 @@ def run(ctx):
     ctx.rule("R6", "reader results propagated; acceptance = FRI verdict over compose_columns(checked data); no discarded Result in verifier crates", 5)
     ctx.rule("R7", "evaluate_constraints: result combines transition evaluations and every main and aux boundary group", 5)
     ctx.rule("R8", "composition coefficients are split at the number of main-segment constraints / assertions and each half is paired with its own constraints (TransitionConstraints::new, combine_evaluations, BoundaryConstraints::new)", 5)
+    ctx.rule("R9", "boundary constraint groups (one divisor each) are keyed by the pair (stride, first_step) itself", 1)
+    ctx.guard("R9", r9_boundary_group_key)
     for rid, fn in (("R1", r1_validate_first), ("R2", r2_seed_and_air), ("R3", r3_challenge_order),
                     ("R4", r4_ood_consistency), ("R5", r5_proof_of_work), ("R6", r6_results_and_deep),
                     ("R7", r7_evaluate_constraints), ("R8", r8_coefficient_wiring)):
